@@ -146,7 +146,10 @@ pub struct ScriptedRng {
 
 impl ScriptedRng {
     pub fn new(ctx: &mut Ctx, n: usize) -> Self {
-        let values = (0..n).map(|i| ctx.var(&format!("rng{i}"))).collect();
+        Self::with_prefix(ctx, "rng", n)
+    }
+    pub fn with_prefix(ctx: &mut Ctx, prefix: &str, n: usize) -> Self {
+        let values = (0..n).map(|i| ctx.var(&format!("{prefix}{i}"))).collect();
         ScriptedRng { values, next: 0, log: vec![] }
     }
 }
